@@ -130,7 +130,7 @@ structure Good (t : Token) (fin : Nat) (f : FloatIn) : Prop where
   acc : ∃ (k : Nat) (ev' : Int),
       f.man * 10 ^ k ≤ t.mantissa ∧ t.mantissa < (f.man + 1) * 10 ^ k ∧ (f.trunc = false → k = 0) ∧
       f.exp10 = ev' - (fracLen t : Int) + k ∧
-      ((expVal t.exp).natAbs < 100000 → ev' = expVal t.exp) ∧ ev'.natAbs < 100000
+      ((expVal t.exp).natAbs < 100000 → ev' = expVal t.exp) ∧ ev'.natAbs < 100000 ∧ ExpSat ev' (expVal t.exp)
 
 theorem Good.intro' (t : Token) (fin : Nat) (f : FloatIn) (P : Nat) (ev' : Int)
     (hnext : f.next = fin) (hneg : f.neg = t.neg)
@@ -139,9 +139,10 @@ theorem Good.intro' (t : Token) (fin : Nat) (f : FloatIn) (P : Nat) (ev' : Int)
     (hlt : f.man < 10 ^ 19) (hbig : f.trunc = true → 10 ^ 16 ≤ f.man)
     (htr : f.trunc = false → P = (allDigits t).length)
     (hexp : f.exp10 = ev' - (fracLen t : Int) + (((allDigits t).length - P : Nat) : Int))
-    (hev : (expVal t.exp).natAbs < 100000 → ev' = expVal t.exp) (hev2 : ev'.natAbs < 100000) : Good t fin f := by
+    (hev : (expVal t.exp).natAbs < 100000 → ev' = expVal t.exp) (hev2 : ev'.natAbs < 100000)
+    (hev3 : ExpSat ev' (expVal t.exp)) : Good t fin f := by
   have hb := prefix_bound (allDigits t) hall P hP
-  refine ⟨hnext, hneg, hlt, hbig, (allDigits t).length - P, ev', ?_, ?_, ?_, hexp, hev, hev2⟩
+  refine ⟨hnext, hneg, hlt, hbig, (allDigits t).length - P, ev', ?_, ?_, ?_, hexp, hev, hev2, hev3⟩
   · rw [hman, mantissa_eq]; exact hb.1
   · rw [hman, mantissa_eq]; exact hb.2
   · intro h; have := htr h; omega
@@ -244,7 +245,7 @@ theorem fract_outcome (neg : Bool) (ids pre s : List Nat) (i : Nat) (m : Mant) (
       = expTail neg (s.dropWhile isD) (i + ds.length) man e t := fun _ _ _ => rfl
   rw [hfold]
   refine ⟨fun h => expTail_none _ _ _ _ _ _ h, fun ex h => ?_⟩
-  obtain ⟨ev', heq, hev, hev2⟩ := expTail_some neg _ (i + ds.length) (accDigits m.man (ds.take k))
+  obtain ⟨ev', heq, hev, hev2, hev3⟩ := expTail_some neg _ (i + ds.length) (accDigits m.man (ds.take k))
     (m.exp10 - (((i + k : Nat) : Int) - exp10S)) (m.trunc || decide (k < ds.length)) ex h
   right; right
   refine ⟨by simp [Token.isInteger], _, heq, ?_⟩
@@ -288,6 +289,7 @@ theorem fract_outcome (neg : Bool) (ids pre s : List Nat) (i : Nat) (m : Mant) (
     omega
   · exact hev
   · exact hev2
+  · exact hev3
 
 
 /-! ## the integer digits -/
@@ -453,7 +455,7 @@ theorem afterInt_e (buf : List Nat) (neg : Bool) (c0 : Nat) (r0 s2 : List Nat) (
   generalize hPA : min ids.length 19 = PA at *
   rw [accAfterInt_e_eq buf neg _ s2 i2 hE]
   refine ⟨fun h => expTail_none _ _ _ _ _ _ h, fun ex h => ?_⟩
-  obtain ⟨ev', heq, hev, hev2⟩ := expTail_some neg s2 i2 (intMant ids).man (intMant ids).exp10 (intMant ids).trunc ex h
+  obtain ⟨ev', heq, hev, hev2, hev3⟩ := expTail_some neg s2 i2 (intMant ids).man (intMant ids).exp10 (intMant ids).trunc ex h
   have hsome := scanExp_isSome s2 hE ex h
   right; right
   refine ⟨fun hh => by
@@ -484,6 +486,7 @@ theorem afterInt_e (buf : List Nat) (neg : Bool) (c0 : Nat) (r0 s2 : List Nat) (
     rw [hallD, hfl]; omega
   · exact hev
   · exact hev2
+  · exact hev3
 
 
 theorem accAfterInt_int_eq (buf : List Nat) (neg : Bool) (m : Mant) (s2 : List Nat) (i2 : Nat)
@@ -599,6 +602,7 @@ theorem afterInt_int (buf : List Nat) (neg : Bool) (c0 : Nat) (r0 s2 : List Nat)
             rw [hallD, hL20]; simp [fracLen]
           · intro _; rfl
           · decide
+          · intro h; simp [expVal] at h
     · -- more than 20 digits: too large for any 64-bit integer
       have he0 : ¬ ((intMant ids).exp10 = 0) := by rw [hexp]; omega
       have he1 : ¬ ((intMant ids).exp10 = 1) := by rw [hexp]; omega
@@ -630,6 +634,7 @@ theorem afterInt_int (buf : List Nat) (neg : Bool) (c0 : Nat) (r0 s2 : List Nat)
           rw [hexp, hallD]; simp [fracLen]
         · intro _; rfl
         · decide
+        · intro h; simp [expVal] at h
 
 
 /-! ## the leading-zero branch -/
